@@ -276,7 +276,15 @@ class C12(Prop):
                 if len(spec.get("n", spec.get("x", []))) == 1 and aff.get("rot"):
                     aff["rot"] = [2, aff["rot"][1]]
                 spec["affine"] = aff
-            g = make_grid(spec)
+            try:
+                g = make_grid(spec)
+            except RuntimeError:
+                # porepy's own geometry computation gives up on some tiny / tilted planar grids
+                # (absolute collinearity tolerance in compute_normal) — not a TPFA matter
+                spec.pop("affine", None)
+                if spec["kind"] == "tensor":
+                    spec["x"] = [[float(i) for i in range(len(x))] for x in spec["x"]]
+                g = make_grid(spec)
             nc, nf = g.num_cells, g.num_faces
             r = rng.random()
             const = r < 0.35
@@ -319,8 +327,8 @@ class C12(Prop):
                     st[0] *= 2
                 k2 = None
                 if rng.random() < 0.4:
-                    k2 = {key: [v * rng.choice([0.5, 2.0, 4.0]) for v in vals_] if key in ("kxx",) else list(vals_)
-                          for key, vals_ in k.items()}
+                    fac = [rng.choice([0.5, 2.0, 4.0]) for _ in range(nc)]   # per-cell factor: stays SPD
+                    k2 = {key: [v * f_ for v, f_ in zip(vals_, fac)] for key, vals_ in k.items()}
                 case["second"] = {"stretch": st, "k": k2}
             yield case
 
@@ -495,9 +503,14 @@ class C12(Prop):
         # MPFA coincidence
         mflux = to_dense(res["mpfa"][0], (nf, nc))
         mbflux = to_dense(res["mpfa"][1], (nf, nf))
-        if not (np.allclose(mflux, flux, rtol=1e-9, atol=1e-9 * scale)
-                and np.allclose(mbflux, bflux, rtol=1e-9,
-                                atol=1e-9 * max(scale, np.abs(bflux).max() if bflux.size else 0.0))):
+        # MPFA solves local systems whose conditioning grows with the cell aspect ratio: on
+        # strongly graded grids compare relative to the largest entry only (as the tie does)
+        vol = g.cell_volumes
+        graded = vol.max() / vol.min() > 2.0 ** 10
+        rt = 0.0 if graded else 1e-9
+        bscale = max(scale, np.abs(bflux).max() if bflux.size else 0.0)
+        if not (np.allclose(mflux, flux, rtol=rt, atol=1e-9 * scale * (1e3 if graded else 1))
+                and np.allclose(mbflux, bflux, rtol=rt, atol=1e-9 * bscale * (1e3 if graded else 1))):
             return ("MPFA and TPFA differ on a K-orthogonal grid: "
                     f"flux {np.abs(mflux - flux).max():.3e}, bound_flux {np.abs(mbflux - bflux).max():.3e}")
         if not case["const"] or res["pmap"]:
